@@ -43,17 +43,17 @@ SITES = [1, 2, 3, 5, 8, 13, 31, 64, 100, 127, 128, 129, 150, 200, 255, 256, 257,
 
 def plan(tier, seed):
     specs = []
-    reps = 1 if tier == "quick" else 6
+    reps = 1 if tier == "quick" else 20
     combos = [(p, n) for n in SITES for p in (1, 2, 4, 6, 8)]
     n_sh = 8
     for i in range(n_sh):
         specs.append({"name": "sweep%02d" % i, "kind": "sweep", "shard": i, "combos": combos[i::n_sh], "reps": reps, "timeout": 7000})
     for i in range(4):
-        specs.append({"name": "breaks%d" % i, "kind": "breaks", "shard": 20 + i, "cases": 30000 if tier == "quick" else 150000, "timeout": 7000})
+        specs.append({"name": "breaks%d" % i, "kind": "breaks", "shard": 20 + i, "cases": 30000 if tier == "quick" else 600000, "timeout": 7000})
     for i in range(6):
-        specs.append({"name": "fix%02d" % i, "kind": "fix", "shard": 30 + i, "cases": 120 if tier == "quick" else 600, "timeout": 7000})
+        specs.append({"name": "fix%02d" % i, "kind": "fix", "shard": 30 + i, "cases": 120 if tier == "quick" else 2500, "timeout": 7000})
     for i in range(4):
-        specs.append({"name": "prog%02d" % i, "kind": "prog", "shard": 50 + i, "datasets": 24 if tier == "quick" else 100, "timeout": 7000})
+        specs.append({"name": "prog%02d" % i, "kind": "prog", "shard": 50 + i, "datasets": 24 if tier == "quick" else 300, "timeout": 7000})
     return specs
 
 
